@@ -79,6 +79,16 @@ func c16R6(c *Ctx, rule string) {
 			continue
 		}
 		p.unitInstrs(f, func(i ssa.Instruction) {
+			// the same add written without sync/atomic: *pair.up += n (a store through the pointer held in the entry)
+			if st, isSt := i.(*ssa.Store); isSt {
+				if fv, _ := loadedField(st.Addr); fv != nil && fieldOfNamed(fv, pairT) {
+					n++
+					held, _ := lockHeldByClass(ls.MustHeld(st), qM)
+					c.Check(held, rule, "write through usagePair."+fv.Name()+" in "+shortFn(p.ownerAnchor(st.Parent())), c.at(st), "usageUpdateQueueM ∈ must-hold set",
+						"drained usage is written into a queue entry without the queue lock: a commit in between uploads and drops the entry, and the bytes added afterwards are never charged")
+				}
+				return
+			}
 			call, ok := i.(*ssa.Call)
 			if !ok {
 				return
@@ -87,7 +97,11 @@ func c16R6(c *Ctx, rule string) {
 			if calleeName(&call.Call) != "sync/atomic.AddInt64" || len(call.Call.Args) != 2 {
 				return
 			}
+			// the counter is what the entry's field points to, or the field itself (a value or atomic.Int64 field)
 			fv, _ := loadedField(call.Call.Args[0])
+			if fv == nil || !fieldOfNamed(fv, pairT) {
+				fv, _ = fieldVar(call.Call.Args[0])
+			}
 			if fv == nil || !fieldOfNamed(fv, pairT) {
 				return
 			}
